@@ -18,6 +18,17 @@ def scratch():
 
 
 def replay(req):
+    """the template written for the function first; if that does not reproduce, every template
+    that bears on the property (the failing input may need a scenario of another template)"""
+    r = _replay_specific(req)
+    if r.get('reproduced') or r.get('templates_run') or not property_templates(req.get('property')):
+        return r
+    r2 = replay_all(req)
+    r2['evaluations'] = (r2.get('evaluations') or 0) + (r.get('evaluations') or 0)
+    return r2
+
+
+def _replay_specific(req):
     func = req.get('func', '')
     if func.startswith('created_files.'):
         return created_files_search(req)
@@ -66,6 +77,9 @@ def replay(req):
     if req.get('property') == 'C01' or func.split('#')[0] in (
             'file_builder.FileBuilder._is_simple_operation_cached',):
         return transparency_cases(req)
+    # no template written for this function: every template that bears on the property
+    if property_templates(req.get('property')):
+        return replay_all(req)
     return {'reproduced': False, 'note': 'no replay template for %s' % func}
 
 
@@ -204,6 +218,10 @@ def replay_extra(req):
                                                'file_builder.FileBuilder._append_suboperation',
                                                'file_builder.FileBuilder._exec_simple_operation'):
         return fence_cases(req)
+    if req.get('property') == 'C17':
+        return fence_cases(req)
+    if 'claimed-before' in req.get('label', ''):
+        return race_cases(req)
     return None
 
 
@@ -273,9 +291,33 @@ def refusal_cases(req):
             os.path.join(root, 'out'), 'name', basic_build, root, lg)))
         calls.append(('cache-is-dir/clean', None, lambda lg: FileBuilder.clean(
             os.path.join(root, 'out'), 'name')))
+        # the same process read the intact cache file a moment ago (refused wrong-name call); the
+        # file is then corrupted in place, same size, same mtime: it must still be refused (what
+        # is on disk counts, not what an earlier call saw)
+        def corrupt_in_place():
+            with open(cache, 'wb') as f:
+                f.write(good)
+            os.utime(cache, ns=(10 ** 18, 10 ** 18))
+            try:
+                FileBuilder.build(cache, 'other', basic_build, root, [])
+            except Exception:
+                pass
+            try:
+                FileBuilder.clean(cache, 'other')
+            except Exception:
+                pass
+            with open(cache, 'wb') as f:
+                f.write(corruptions['bitflip'])
+            os.utime(cache, ns=(10 ** 18, 10 ** 18))
+        calls.append(('bitflip-same-size-and-mtime-after-an-earlier-read', corrupt_in_place,
+                      lambda lg: FileBuilder.build(cache, 'name', basic_build, root, lg)))
+        calls.append(('bitflip-same-size-and-mtime-after-an-earlier-read/clean', corrupt_in_place,
+                      lambda lg: FileBuilder.clean(cache, 'name')))
         for (cname, blob, call) in calls:
             n += 1
-            if blob is not None:
+            if callable(blob):
+                blob()
+            elif blob is not None:
                 with open(cache, 'wb') as f:
                     f.write(blob)
             before, tmp_before = snapshot(root), tmp_listing()
@@ -303,6 +345,85 @@ def refusal_cases(req):
         return {'reproduced': False, 'evaluations': n,
                 'note': '%d refusal cases left the tree bit-identical' % n}
     finally:
+        shutil.rmtree(root, ignore_errors=True)
+
+
+def race_cases(req):
+    """C08, two threads issuing build_file for the same path, with ONE forced schedule (the
+    duplicate passes the unlocked early check, then the other thread runs its whole call, then the
+    duplicate continues): the duplicate must be refused without disturbing the winner's output.
+    The schedule is forced by a pass-through wrapper around os.path.isdir; the library is
+    untouched."""
+    import threading
+    from file_builder import FileBuilder
+    root = scratch()
+    real_isdir = os.path.isdir
+    try:
+        target = os.path.join(root, 'out.txt')
+        cache = os.path.join(root, 'cache.gz')
+        b_passed, a_done = threading.Event(), threading.Event()
+        calls, results, b_ident, observed = {'A': 0, 'B': 0}, {}, [], {}
+
+        def isdir(path):
+            if b_ident and threading.get_ident() == b_ident[0] and path == target \
+                    and not b_passed.is_set():
+                b_passed.set()
+                a_done.wait(20)
+            return real_isdir(path)
+
+        def fa(b, filename):
+            calls['A'] += 1
+            write(filename, 'written by A')
+            return 'A'
+
+        def fb(b, filename):
+            calls['B'] += 1
+            write(filename, 'written by B')
+            return 'B'
+
+        def ta(b):
+            b_passed.wait(20)
+            try:
+                results['A'] = ('returned', b.build_file(target, 'make', fa))
+            except Exception as e:
+                results['A'] = ('raised', type(e).__name__)
+            a_done.set()
+
+        def tb(b):
+            b_ident.append(threading.get_ident())
+            try:
+                results['B'] = ('returned', b.build_file(target, 'make', fb))
+            except Exception as e:
+                results['B'] = ('raised', type(e).__name__)
+
+        def build(b):
+            t1, t2 = threading.Thread(target=ta, args=(b,)), threading.Thread(target=tb, args=(b,))
+            t1.start()
+            t2.start()
+            t1.join()
+            t2.join()
+            observed['is_file'] = b.is_file(target)
+            observed['on_disk'] = os.path.isfile(target) and open(target).read()
+        os.path.isdir = isdir
+        try:
+            FileBuilder.build(cache, 'n', build)
+        finally:
+            os.path.isdir = real_isdir
+        ok = (results.get('A') == ('returned', 'A') and results.get('B') == ('raised', 'RuntimeError')
+              and calls == {'A': 1, 'B': 0} and observed.get('on_disk') == 'written by A'
+              and observed.get('is_file') is True and os.path.isfile(target))
+        if not ok:
+            return {'reproduced': True,
+                    'check': 'a duplicate build_file that loses the race disturbs the output of '
+                             'the call that won',
+                    'input': 'threads A and B call build_file(out.txt); B passes the early '
+                             'duplicate check, A runs its whole call, B continues',
+                    'observed': {'A': results.get('A'), 'B': results.get('B'), 'calls': calls,
+                                 'after': observed, 'on_disk_after_build': os.path.isfile(target)},
+                    'evaluations': 1}
+        return {'reproduced': False, 'evaluations': 1}
+    finally:
+        os.path.isdir = real_isdir
         shutil.rmtree(root, ignore_errors=True)
 
 
@@ -448,6 +569,27 @@ def aliasing_cases(req):
                 write(filename, 'out')
                 return {'v': [3]}
 
+            def dict_arg(b, d, l):
+                # a dict passed positionally, mutated by the callee
+                log.append('dict_arg')
+                if mutate:
+                    d['added'] = 1
+                    d['inner'].append(2)
+                    l.append(3)
+                return 'd'
+
+            def twice(b, x, y):
+                # the caller passed the same list object twice: the callee gets two values
+                log.append('twice')
+                if mutate:
+                    x.append(5)
+                return [len(x) - (1 if mutate else 0), len(y)]
+
+            def pair(b):
+                log.append('pair')
+                inner = [0]
+                return [inner, inner, {'a': inner}]
+
             def rootf(b):
                 r1 = b.subbuild('producer', producer, ['a'])
                 r2 = b.build_file(os.path.join(root, 'out.txt'), 'mk', mk, {'x': [1]})
@@ -457,6 +599,15 @@ def aliasing_cases(req):
                     r1.append(9)
                     r1[1]['k'].append(9)
                     r2['v'].append(9)
+                snapshot_.append(b.subbuild('dict_arg', dict_arg, {'inner': [1]}, [0]))
+                shared = [1]
+                snapshot_.append(b.subbuild('twice', twice, shared, shared))
+                r4 = b.subbuild('pair', pair)
+                if mutate:
+                    r4[0].append(7)
+                    snapshot_.append(json.loads(json.dumps([r4[0][:-1], r4[1], r4[2]])))
+                else:
+                    snapshot_.append(json.loads(json.dumps(r4)))
                 return snapshot_
             return rootf, log
         results = []
@@ -809,7 +960,64 @@ def failed_reuse_case(req):
     finally:
         shutil.rmtree(root, ignore_errors=True)
         shutil.rmtree(ref, ignore_errors=True)
-    return {'reproduced': False, 'evaluations': 2, 'note': repr(seen)}
+    # C14 ("the error surfaces as an exception from the API call in progress"): a top-level
+    # build_file is answered from the cache; putting its nested output's directory in place fails
+    # (injected OSError at os.mkdir) -- the call must raise that error, with and without a caller
+    # that catches it, and must not quietly run the function instead
+    for catching in (False, True):
+        root = scratch()
+        try:
+            calls = []
+
+            def part(b, filename):
+                calls.append('part')
+                write(filename, 'p')
+
+            def whole(b, filename):
+                calls.append('whole')
+                b.build_file(os.path.join(root, 'parts', 'p.txt'), 'part', part)
+                write(filename, 'w')
+            got = {}
+
+            def rootf(b):
+                try:
+                    b.build_file(os.path.join(root, 'whole.txt'), 'whole', whole)
+                    got['outcome'] = 'returned'
+                except OSError as e:
+                    got['outcome'] = type(e).__name__
+                    if not catching:
+                        raise
+                return 1
+            cache = os.path.join(root, 'c.gz')
+            FileBuilder.build(cache, 'n', rootf)
+            del calls[:]
+            real = os.mkdir
+
+            def mkdir(p, *a, **k):
+                if os.path.basename(p) == 'parts':
+                    raise PermissionError('injected')
+                return real(p, *a, **k)
+            os.mkdir = mkdir
+            try:
+                FileBuilder.build(cache, 'n', rootf)
+                result = 'build returned'
+            except PermissionError:
+                result = 'build raised PermissionError'
+            finally:
+                os.mkdir = real
+            expected = 'build returned' if catching else 'build raised PermissionError'
+            if got.get('outcome') != 'PermissionError' or calls or result != expected:
+                return {'reproduced': True,
+                        'check': 'an OSError while reusing a cached build_file does not surface '
+                                 'from the call in progress',
+                        'input': 'whole.txt (function builds parts/p.txt) is cached; second build '
+                                 'with os.mkdir(parts) raising PermissionError; caller %s' % (
+                                     'catches it' if catching else 'lets it propagate'),
+                        'observed': {'build_file': got.get('outcome'), 'functions_called': calls,
+                                     'build': result}, 'evaluations': 3}
+        finally:
+            shutil.rmtree(root, ignore_errors=True)
+    return {'reproduced': False, 'evaluations': 4, 'note': repr(seen)}
 
 
 # -------------------------------------------------------------------------------------------------
@@ -1063,6 +1271,59 @@ def rollback_cases(req):
                     'evaluations': n}
     finally:
         shutil.rmtree(root, ignore_errors=True)
+    # 11. the backup directory is on another device (os.rename/os.replace into or out of it raise
+    #     EXDEV) and the cache write fails: whatever the library does about EXDEV when moving a
+    #     file aside, it must be able to undo it -- the previous outputs and cache file are back
+    root = scratch()
+    try:
+        n += 1
+        import errno
+        import gzip as _gz
+        cache = os.path.join(root, 'c.gz')
+        out = os.path.join(root, 'o', 'a.txt')
+        FileBuilder.build(cache, 'n', lambda b: b.build_file(out, 'mk', mk, 'v1'))
+        before = snapshot(root)
+        real_rename, real_replace, real_open = os.rename, os.replace, _gz.open
+
+        def crossing(a, b_):
+            ina = os.path.abspath(os.fsdecode(a)).startswith(root + os.sep)
+            inb = os.path.abspath(os.fsdecode(b_)).startswith(root + os.sep)
+            return ina != inb
+
+        def rename(a, b_, *x, **k):
+            if crossing(a, b_):
+                raise OSError(errno.EXDEV, 'Invalid cross-device link (injected)')
+            return real_rename(a, b_, *x, **k)
+
+        def replace(a, b_, *x, **k):
+            if crossing(a, b_):
+                raise OSError(errno.EXDEV, 'Invalid cross-device link (injected)')
+            return real_replace(a, b_, *x, **k)
+
+        def bad_open(filename, mode='rb', *a, **k):
+            if 'w' in mode:
+                raise OSError(28, 'No space left on device (injected)')
+            return real_open(filename, mode, *a, **k)
+        os.rename, os.replace, _gz.open = rename, replace, bad_open
+        try:
+            try:
+                FileBuilder.build(cache, 'n', lambda b: b.build_file(out, 'mk', mk, 'v2 longer'))
+                raised = None
+            except OSError as e:
+                raised = e
+        finally:
+            os.rename, os.replace, _gz.open = real_rename, real_replace, real_open
+        after = snapshot(root)
+        if raised is not None and files_only(before) != files_only(after):
+            return {'reproduced': True,
+                    'check': 'files moved aside across devices are not put back by the rollback',
+                    'input': 'second build rebuilds o/a.txt; os.rename/os.replace between the tree '
+                             'and the backup directory raise EXDEV; the cache write raises ENOSPC',
+                    'observed': sorted(os.path.relpath(p, root) for p in
+                                       set(files_only(before)) ^ set(files_only(after)))
+                    or 'bytes/mtime differ', 'evaluations': n}
+    finally:
+        shutil.rmtree(root, ignore_errors=True)
     if first is not None:
         return first
     # 6. the root function returns, the previous build had an output this build no longer makes,
@@ -1188,6 +1449,30 @@ def identity_cases(req):
                 return {'reproduced': True, 'check': 'another spelling of the same path is a '
                         'different cache entry', 'input': repr(sp), 'observed': repr(seen),
                         'evaluations': n}
+        # the same relative spelling under two working directories names two files: the path is
+        # made absolute at each call, relative to the cwd of that moment
+        cwd0 = os.getcwd()
+        try:
+            got = []
+
+            def mkrel(bb, filename):
+                got.append(filename)
+                write(filename, 'r')
+            for sub in ('w1', 'w2'):
+                n += 1
+                wd = os.path.join(root, sub)
+                os.makedirs(wd)
+                os.chdir(wd)
+                FileBuilder.build(os.path.join(wd, 'c.gz'), 'n',
+                                  lambda bb: bb.build_file(os.path.join('rel', 'o.txt'), 'mk', mkrel))
+            want = [os.path.join(root, sub, 'rel', 'o.txt') for sub in ('w1', 'w2')]
+            if got != want or not all(os.path.isfile(w) for w in want):
+                return {'reproduced': True, 'check': 'a relative path is not resolved against the '
+                        'working directory of the call', 'input': "build_file('rel/o.txt') in w1, "
+                        "then after os.chdir in w2", 'observed': repr(got), 'expected': repr(want),
+                        'evaluations': n}
+        finally:
+            os.chdir(cwd0)
         return {'reproduced': False, 'evaluations': n}
     finally:
         shutil.rmtree(root, ignore_errors=True)
@@ -1318,6 +1603,66 @@ def comparison_cases(req):
                         'input': what, 'observed': list(log), 'evaluations': n}
         finally:
             shutil.rmtree(root, ignore_errors=True)
+    # inputs read nested in a reused subtree, at positions a replay could skip: (a) after a nested
+    # call that raised and was caught, (b) inside the function of a nested HASH output that is
+    # itself intact
+    for where in ('after a caught failing subbuild', 'after a caught failing build_file',
+                  'inside the function of an intact nested HASH output',
+                  'inside the function of an intact nested METADATA output'):
+        for mode, mut in ((H, same_meta_new_content), (Mt, touch_only)):
+            n += 1
+            root = scratch()
+            try:
+                src = os.path.join(root, 'in.bin')
+                with open(src, 'wb') as f:
+                    f.write(b'A' * 10)
+                os.utime(src, ns=(10 ** 18, 10 ** 18))
+                out = os.path.join(root, 'o', 'gen.bin')
+                log = []
+
+                def boom(b, *a):
+                    raise KeyError('nested failure')
+
+                def gen(b, filename):
+                    log.append('gen')
+                    with b.read_binary(src, mode) as fh:
+                        data = fh.read()
+                    with open(filename, 'wb') as f:
+                        f.write(b'derived from %d bytes' % len(data))
+
+                def outer(b):
+                    log.append('outer')
+                    if where.startswith('after a caught failing subbuild'):
+                        try:
+                            b.subbuild('boom', boom)
+                        except KeyError:
+                            pass
+                    elif where.startswith('after a caught failing build_file'):
+                        try:
+                            b.build_file(os.path.join(root, 'o', 'never.txt'), 'boom', boom)
+                        except KeyError:
+                            pass
+                    else:
+                        b.build_file_with_comparison(
+                            out, H if 'HASH output' in where else Mt, 'gen', gen)
+                        return 'built'
+                    with b.read_binary(src, mode) as fh:
+                        return len(fh.read())
+                cache = os.path.join(root, 'c.gz')
+                FileBuilder.build(cache, 'n', lambda b: b.subbuild('outer', outer))
+                del log[:]
+                mut(src)
+                FileBuilder.build(cache, 'n', lambda b: b.subbuild('outer', outer))
+                if not log:
+                    return {'reproduced': True,
+                            'check': 'a change of an input read nested in a reused subtree is not '
+                                     'detected',
+                            'input': 'input read with %s %s; %s' % (
+                                mode.name, where, 'content changed, size and mtime preserved'
+                                if mode == H else 'timestamp changed'),
+                            'observed': 'nothing was re-executed', 'evaluations': n}
+            finally:
+                shutil.rmtree(root, ignore_errors=True)
     # a HASH output that a "reproducible" function rebuilds with the same size and a pinned mtime:
     # the rebuilt bytes are what is recorded; afterwards an unchanged tree rebuilds nothing and a
     # tampered output (old bytes put back, same size and mtime) is detected
@@ -1710,6 +2055,65 @@ def version_cases(req):
                 finally:
                     shutil.rmtree(root, ignore_errors=True)
                     shutil.rmtree(ref, ignore_errors=True)
+    # a deeper call graph: outputs built two subbuild levels down stay cached when only the version
+    # of an unrelated function changes -- and that function, re-executed, must see them (virtual
+    # view of reused outputs) exactly as in a build from scratch
+    for changed in ('index', 'page', 'section', 'site', None):
+        n += 1
+        root = scratch()
+        ref = scratch()
+        try:
+            log = []
+
+            def make(base):
+                def page(b, filename, i):
+                    log.append('page')
+                    write(filename, 'page %d' % i)
+
+                def section(b):
+                    log.append('section')
+                    for i in (1, 2):
+                        b.build_file(os.path.join(base, 'out', 'pages', 'p%d.txt' % i), 'page',
+                                     page, i)
+                    return 2
+
+                def site(b):
+                    log.append('site')
+                    return b.subbuild('section', section)
+
+                def index(b):
+                    log.append('index')
+                    d = os.path.join(base, 'out', 'pages')
+                    return [b.is_dir(d), sorted(b.list_dir(d)) if b.is_dir(d) else None,
+                            b.is_file(os.path.join(d, 'p1.txt'))]
+
+                def prog(b):
+                    return [b.subbuild('site', site), b.subbuild('index', index)]
+                return prog
+            cache = os.path.join(root, 'c.gz')
+            v2 = {changed: 2} if changed else {}
+            FileBuilder.build_versioned(cache, 'n', {}, make(root))
+            del log[:]
+            r2 = FileBuilder.build_versioned(cache, 'n', v2, make(root))
+            ran = sorted(set(log))
+            del log[:]
+            r_ref = FileBuilder.build_versioned(os.path.join(ref, 'c.gz'), 'n', v2, make(ref))
+            expect = {'index': ['index'], 'page': ['page', 'section', 'site'],
+                      'section': ['section', 'site'], 'site': ['site'], None: []}[changed]
+            tree = sorted(os.path.relpath(p, root) for p in snapshot(root) if p not in (root, cache))
+            tree_ref = sorted(os.path.relpath(p, ref) for p in snapshot(ref)
+                              if p not in (ref, os.path.join(ref, 'c.gz')))
+            if ran != expect or r2 != r_ref or tree != tree_ref:
+                return {'reproduced': True,
+                        'check': 'version change of %r in a two-level call graph' % (changed,),
+                        'input': 'site -> section -> build_file(out/pages/p1.txt, p2.txt); index '
+                                 'lists out/pages; versions {} then %r' % (v2,),
+                        'observed': {'ran': ran, 'expected_to_run': expect, 'result': repr(r2),
+                                     'scratch': repr(r_ref), 'tree': tree, 'tree_scratch': tree_ref},
+                        'evaluations': n}
+        finally:
+            shutil.rmtree(root, ignore_errors=True)
+            shutil.rmtree(ref, ignore_errors=True)
     return {'reproduced': False, 'evaluations': n}
 
 
@@ -1822,7 +2226,7 @@ def property_templates(pid):
         'C05': [effectiveness_cases, failed_reuse_case, version_cases],
         'C06': [version_cases],
         'C07': [identity_cases],
-        'C08': [fence_cases, refusal_cases],
+        'C08': [fence_cases, refusal_cases],    # race_cases: known finding, run on demand only
         'C10': [failed_setup_cases, failed_reuse_case, identity_cases],
         'C11': [aliasing_cases],
         'C12': [clean_cases],
@@ -1918,9 +2322,10 @@ def foreign_cases(req):
             finally:
                 shutil.rmtree(base, ignore_errors=True)
     # a foreign file planted where a nested build_file failed (and was caught) in the previous
-    # build, while the enclosing record is reused from the cache: nothing passes that path to
-    # build_file in this build, and it is no recorded output -- it must survive commit, rollback
-    # and clean
+    # build.  It is no recorded output: it must survive a rollback and clean, and it must survive
+    # a committed build unless that build really executed build_file for this path (since fix
+    # 16f20c0 the record is not replayed when something stands at the target, so the call is
+    # executed and, like in a build from scratch, replaces what is there)
     for last in ('build', 'failing build', 'clean'):
         n += 1
         base = scratch()
@@ -1930,7 +2335,10 @@ def foreign_cases(req):
             cache = os.path.join(base, 'cache.gz')
             P = os.path.join(root, 'gen', 'failed.txt')
 
+            bad_calls = []
+
             def bad(b, filename):
+                bad_calls.append(filename)
                 raise KeyError('cannot build')
 
             def outer(b):
@@ -1945,6 +2353,7 @@ def foreign_cases(req):
             FileBuilder.build(cache, 'n', f)
             write(P, 'planted by the user')
             before = {p_: v for p_, v in snapshot(root).items() if p_ == P}
+            del bad_calls[:]
             if last == 'build':
                 FileBuilder.build(cache, 'n', f)
             elif last == 'clean':
@@ -1958,7 +2367,7 @@ def foreign_cases(req):
                 except ValueError:
                     pass
             after = {p_: v for p_, v in snapshot(root).items() if p_ == P}
-            if before != after:
+            if before != after and not (last == 'build' and bad_calls and P not in after):
                 return {'reproduced': True,
                         'check': 'a %s removed or touched a foreign file' % last,
                         'input': 'previous build: subbuild tolerates a failing build_file(gen/'
